@@ -13,14 +13,26 @@
 //   SO<e><N>    rebalance-start, some other reason
 //   C<e>        rebalance-complete epoch e
 //   o<N>        the NodeLeft timeout of N fires (emitOverdueNodeLeft)
+//
+// enum <L> <prefix ops...>   every history prefix++ext with at most L ops, ext over the fixed
+//             14-token alphabet (2 peers, 2 epochs), run one by one on the real code; prints
+//             `n=<count> h=<sum mod 2^64 of FNV-1a64(history TAB output)>` (order independent)
+//
 // output: per op `-` or the sorted comma list of emitted events `L<N>@<ms>` / `J<N>@<ms>`,
 // then ` | ` and a digest of the bookkeeping state.
 package main
 
 import (
 	"fmt"
+	"hash/fnv"
+	"os"
+	"runtime/pprof"
 	"sort"
+	"strconv"
 	"strings"
+	"sync"
+	"sync/atomic"
+	"time"
 
 	"github.com/tochemey/goakt/v4/internal/cluster"
 	"github.com/tochemey/goakt/v4/internal/verifdrv/vlib"
@@ -50,13 +62,124 @@ func letter(a string) string {
 func isNode(b byte) bool  { return b >= 'a' && b <= 'z' }
 func isDigit(b byte) bool { return b >= '0' && b <= '9' }
 
+var enumAlphabet = []string{"la1", "la2", "lb1", "lb2", "SL1a", "C1", "SL2a", "C2", "oa", "ob", "ja", "jb", "SJ1a", "SJ2a"}
+
+// limiter: every tracked departure arms a 30 s timer that pins its cluster struct, so the
+// enumeration admits at most enumWindowCap histories per enumWindow.
+const enumWindow = 31 * time.Second
+const enumWindowCap = 2500000
+
+var (
+	limMu    sync.Mutex
+	limSlots []limSlot
+)
+
+type limSlot struct {
+	at time.Time
+	n  int
+}
+
+func admit(n int) {
+	for {
+		limMu.Lock()
+		now := time.Now()
+		live := 0
+		k := 0
+		for _, s := range limSlots {
+			if now.Sub(s.at) < enumWindow {
+				limSlots[k] = s
+				k++
+				live += s.n
+			}
+		}
+		limSlots = limSlots[:k]
+		if live+n <= enumWindowCap || live == 0 {
+			limSlots = append(limSlots, limSlot{now, n})
+			limMu.Unlock()
+			return
+		}
+		limMu.Unlock()
+		time.Sleep(200 * time.Millisecond)
+	}
+}
+
+func enum(maxLen int, prefix []string) string {
+	if len(prefix) > maxLen || maxLen > 8 {
+		return "bad-case"
+	}
+	var total, count uint64
+	one := func(h []string) {
+		line := strings.Join(h, " ")
+		f := fnv.New64a()
+		f.Write([]byte(line + "\t" + run(h, cluster.VerifC34Clone(template), true)))
+		atomic.AddUint64(&total, f.Sum64())
+		atomic.AddUint64(&count, 1)
+	}
+	var rec func(h []string)
+	rec = func(h []string) {
+		one(h)
+		if len(h) == maxLen {
+			return
+		}
+		for _, t := range enumAlphabet {
+			rec(append(h[:len(h):len(h)], t))
+		}
+	}
+	if len(prefix) > 0 {
+		one(prefix)
+	}
+	if rem := maxLen - len(prefix); rem > 0 {
+		size := 0 // histories below one first extension
+		for i, p := 0, 1; i < rem; i++ {
+			size += p
+			p *= len(enumAlphabet)
+		}
+		var wg sync.WaitGroup
+		sem := make(chan struct{}, 8)
+		for _, t := range enumAlphabet {
+			admit(size)
+			wg.Add(1)
+			sem <- struct{}{}
+			go func(t string) {
+				defer wg.Done()
+				defer func() { <-sem }()
+				rec(append(append([]string(nil), prefix...), t))
+			}(t)
+		}
+		wg.Wait()
+	}
+	return fmt.Sprintf("n=%d h=%016x", count, total)
+}
+
+var template = cluster.VerifC34New(selfHost, selfPort)
+
 func handle(line string) string {
 	ops := vlib.Fields(line)
-	v := cluster.VerifC34New(selfHost, selfPort)
+	if len(ops) >= 2 && ops[0] == "enum" {
+		n, err := strconv.Atoi(ops[1])
+		if err != nil {
+			return "bad-case"
+		}
+		return enum(n, ops[2:])
+	}
+	return run(ops, cluster.VerifC34New(selfHost, selfPort), false)
+}
+
+// run drives one history; direct = call the handlers without the JSON round trip (enumeration)
+func run(ops []string, v *cluster.VerifC34, direct bool) string {
+	defer v.Release()
 	var steps []string
 	for k, op := range ops {
 		ns := int64(k+1) * 1000000
 		switch {
+		case direct && len(op) == 2 && op[0] == 'j' && isNode(op[1]):
+			v.Apply('j', addr(op[1]), "", 0, ns)
+		case direct && len(op) == 3 && op[0] == 'l' && isNode(op[1]) && isDigit(op[2]):
+			v.Apply('l', addr(op[1]), "", 0, ns)
+		case direct && len(op) == 4 && op[0] == 'S' && isDigit(op[2]) && isNode(op[3]) && (op[1] == 'L' || op[1] == 'J'):
+			v.Apply('S', addr(op[3]), map[byte]string{'L': "node-left", 'J': "node-join"}[op[1]], uint64(op[2]-'0'), ns)
+		case direct && len(op) == 2 && op[0] == 'C' && isDigit(op[1]):
+			v.Apply('C', "", "", uint64(op[1]-'0'), ns)
 		case len(op) == 2 && op[0] == 'j' && isNode(op[1]):
 			if err := v.Feed(fmt.Sprintf(`{"kind":"node-join-event","source":"x","node_join":%q,"node_meta":"","timestamp":%d}`, addr(op[1]), ns)); err != nil {
 				return "err " + err.Error()
@@ -135,4 +258,11 @@ func digest(s cluster.VerifC34State) string {
 		ts(s.JoinTs), ts(s.LeftTs), ep(s.JoinEp), ep(s.LeftEp), s.JoinLatest, s.LeftLatest, eps(s.StartSeen), eps(s.CompleteSeen), ns(s.JoinF), ns(s.LeftF))
 }
 
-func main() { vlib.Loop(handle) }
+func main() {
+	if f := os.Getenv("VERIF_C34_PROF"); f != "" {
+		w, _ := os.Create(f)
+		pprof.StartCPUProfile(w)
+		defer pprof.StopCPUProfile()
+	}
+	vlib.Loop(handle)
+}
